@@ -707,6 +707,8 @@ impl SvgElement {
     /// Calculate bounding box of target_shape inside self
     pub fn inscribed_bbox(&self, target_shape: &str) -> Result<Option<BoundingBox>> {
         let zstr = "0".to_owned();
+        // (not before the element has a position: see `bbox_raw`)
+        self.bbox_raw()?;
         match (target_shape, self.name.as_str()) {
             // rect inside circle
             ("rect", "circle") => {
